@@ -73,6 +73,8 @@ def match_known(pid, v, kf):
             continue
         if k.get("rule") == v["rule"] and k.get("classifier") == v["classifier"]:
             return k
+        if k.get("rule") == v["rule"] and k.get("classifier_endswith") and v["classifier"].endswith(k["classifier_endswith"]):
+            return k
     return None
 
 
